@@ -29,6 +29,10 @@ class RefError(Exception):
     """The reference model cannot handle something (never a verdict about the repository)."""
 
 
+class NotCanonical(RefError):
+    """The drawn value has no canonical encoding (e.g. a self.size field too narrow for what follows)."""
+
+
 class DecodeError(Exception):
     """The reference decoder says the bytes are not an encoding of the definition."""
 
@@ -312,6 +316,8 @@ class Codec:
         s._enc_members(c, c.raw['members'], vals, st, path, size_patches)
         for (off, w, be) in size_patches:
             n = len(st.out) - (off + w)
+            if n >> (8 * w):
+                raise NotCanonical(f'{c.name}: self.size {n} does not fit {w} byte(s)')
             st.out[off:off + w] = n.to_bytes(w, 'big' if be else 'little')
 
     def _enc_members(s, c, members, vals, st, path, size_patches):
